@@ -204,6 +204,7 @@ pub fn run_with(rng: &mut Rng, n: usize, rep: &mut Report, lines: &mut Option<Ve
                 if let Some(why) = incoherent_with_caps(&s.w.bank(&h0.bank), &s.w.group(&s.group)) {
                     rep.fail(format!("configure_bank_emode accepted an incoherent configuration: {}", why));
                 }
+                emode_flag_invariant(&s.w.bank(&h0.bank), "lending_pool_configure_bank_emode", rep);
             }
             // clone bank 0's e-mode onto bank 1 (which has its own liability weights)
             if rng.chance(1, 2) {
@@ -228,6 +229,11 @@ pub fn run_with(rng: &mut Rng, n: usize, rep: &mut Report, lines: &mut Option<Ve
                 if let Some(why) = incoherent(&s.w.bank(&h1.bank)) {
                     rep.fail(format!("clone-emode-unvalidated: lending_pool_clone_emode left the destination bank with an incoherent configuration: {}", why));
                 }
+                let (src, dst) = (s.w.bank(&h0.bank), s.w.bank(&h1.bank));
+                if src.emode.emode_tag != dst.emode.emode_tag || bytemuck::bytes_of(&src.emode.emode_config) != bytemuck::bytes_of(&dst.emode.emode_config) {
+                    rep.fail("lending_pool_clone_emode left the destination with a tag / entries that differ from the source's".to_string());
+                }
+                emode_flag_invariant(&dst, "lending_pool_clone_emode", rep);
             }
         }
         // ---- directed: a bank that HOLDS a valid high-weight e-mode entry must not be allowed to lower its liability weights
@@ -503,4 +509,16 @@ fn add_bank_probe(s: &Scen, rng: &mut Rng, rep: &mut Report) {
 
 fn bits_of(v: marginfi_type_crate::types::WrappedI80F48) -> i128 {
     I80F48::from(v).to_bits()
+}
+
+
+/// EMODE_ON is the program's own summary of "this bank has e-mode entries" (set and cleared by update_emode_enabled); every
+/// instruction that writes entries must leave it in step with them — code that consults the flag instead of the entries
+/// (or the other way round) otherwise values the same bank differently
+fn emode_flag_invariant(b: &Bank, ixn: &str, rep: &mut Report) {
+    let has = b.emode.emode_config.entries.iter().any(|e| e.collateral_bank_emode_tag != 0);
+    let on = b.emode.flags & marginfi_type_crate::types::EMODE_ON != 0;
+    if has != on {
+        rep.fail(format!("C04 {} left EMODE_ON {} on a bank that {} e-mode entries: the flag and the entries disagree, so collateral is valued with or without the e-mode weights depending on which of the two a check consults", ixn, if on { "set" } else { "clear" }, if has { "holds" } else { "holds no" }));
+    }
 }
